@@ -5,16 +5,23 @@ import LimnoriaModel.C12.LemmasFmt
 namespace C12
 open Py
 
-/-- table facts about the texts of the reply code -/
+/-- table facts about the probe of the reply code -/
 def TextsOk : Prop :=
-  blen Gen.moreSingular ≤ blen longerMore ∧ blen Gen.morePlural ≤ blen longerMore ∧
-  replyBodyProbe = Gen.probePayload ∧ Gen.probePayload.length = 1
-where
-  /-- the probe payload after `strip('\x01')` -/
-  replyBodyProbe : Str :=
-    if (stripCtcpStr Gen.probePayload).isEmpty then Gen.emptyReply else stripCtcpStr Gen.probePayload
+  stripCtcpStr Gen.probePayload = Gen.probePayload ∧ Gen.probePayload.length = 1
 
 instance : Decidable TextsOk := by unfold TextsOk; exact inferInstance
+
+/-- what the suffix reserve needs from the locale: the text picked by `max(…, key=len)` (characters) is
+at least as long, in BYTES, as both the singular and the plural text -/
+def TextsFine (t : Texts) : Prop :=
+  blen t.moreSingular ≤ blen (longerMore t) ∧ blen t.morePlural ≤ blen (longerMore t)
+
+instance (t : Texts) : Decidable (TextsFine t) := by unfold TextsFine; exact inferInstance
+
+/-- an ordinary reply: neither `action=True` nor an error reply -/
+def Normal (e : Env) : Prop := e.action = false ∧ e.errorMode = false
+
+instance (e : Env) : Decidable (Normal e) := by unfold Normal; exact inferInstance
 
 /-! ## _makeReply and the wire form -/
 
@@ -42,25 +49,31 @@ theorem blen_stripCtcp_le (s : Str) : blen (stripCtcpStr s) ≤ blen s := by
     _ = blen (List.dropWhile isCtcp s) := blen_reverse _
     _ ≤ blen s := blen_dropWhile_le _ _
 
-theorem blen_replyBody_le (e : Env) (s : Str) : blen (replyBody e s) ≤ max (blen s) (blen Gen.emptyReply) := by
+theorem replyBody_normal (e : Env) (hn : Normal e) (s : Str) :
+    replyBody e s = (if (if e.stripCtcp then stripCtcpStr s else s).isEmpty then e.texts.emptyReply
+      else (if e.stripCtcp then stripCtcpStr s else s)) := by
   unfold replyBody
-  have := blen_stripCtcp_le s
-  cases e.stripCtcp <;> dsimp only <;> simp only [Bool.false_eq_true, ↓reduceIte] <;> split <;> omega
+  simp [hn.1, hn.2]
 
-theorem autoLength_eq (ht : TextsOk) (e : Env) :
+theorem blen_replyBody_le (e : Env) (hn : Normal e) (s : Str) :
+    blen (replyBody e s) ≤ max (blen s) (blen e.texts.emptyReply) := by
+  rw [replyBody_normal e hn]
+  have := blen_stripCtcp_le s
+  cases e.stripCtcp <;> simp only [Bool.false_eq_true, ↓reduceIte] <;> split <;> omega
+
+theorem autoLength_eq (ht : TextsOk) (e : Env) (hn : Normal e) :
     autoLength e = if frameLen e < Gen.maxLine then some (Gen.maxLine - frameLen e) else none := by
-  obtain ⟨_, _, hprobe, hlen⟩ := ht
+  obtain ⟨hprobe, hlen⟩ := ht
   unfold autoLength
-  have hbody : ∀ (e : Env), replyBody e Gen.probePayload = Gen.probePayload := by
-    intro e
-    unfold replyBody
-    dsimp only
+  have hne : Gen.probePayload.isEmpty = false := by
+    cases hp : Gen.probePayload with
+    | nil => rw [hp] at hlen; simp at hlen
+    | cons _ _ => rfl
+  have hbody : replyBody e Gen.probePayload = Gen.probePayload := by
+    rw [replyBody_normal e hn]
     cases hsc : e.stripCtcp
-    · simp only [Bool.false_eq_true, ↓reduceIte]
-      cases hp : Gen.probePayload with
-      | nil => rw [hp] at hlen; simp at hlen
-      | cons _ _ => rfl
-    · simp only [↓reduceIte]; exact hprobe
+    · simp [hne]
+    · simp [hprobe, hne]
   have hdrop : (makeReply e Gen.probePayload).payload.dropLast = (replyFrame e).2.2 := by
     simp only [makeReply, hbody]
     cases hp : Gen.probePayload with
@@ -87,15 +100,16 @@ theorem blen_countText (n : Nat) (more : Str) :
   have h3 : (')' : Char).utf8Size = 1 := by decide
   simp only [countText, blen, blen_append, h1, h2, h3, blen_natToStr]; omega
 
-theorem suffixReserve_eq (hk : CharsOk) (n : Nat) :
-    suffixReserve n = (natToStr (Gen.tabFactor * n)).length + blen longerMore + 6 := by
+theorem suffixReserve_eq (hk : CharsOk) (t : Texts) (n : Nat) :
+    suffixReserve t n = (natToStr (Gen.tabFactor * n)).length + blen (longerMore t) + 6 := by
   have h2 : (' ' : Char).utf8Size = 1 := by decide
   simp only [suffixReserve, blen, blen_bold hk, blen_countText, h2]; omega
 
 /-- a chunk with its suffix is at most `suffixReserve` bytes longer than the chunk, as long as the count
 is at most `8 * s_size` -/
-theorem blen_withSuffix_le (hk : CharsOk) (ht : TextsOk) (i n : Nat) (chunk : Str) (hi : i ≤ Gen.tabFactor * n) :
-    blen (withSuffix i chunk) ≤ blen chunk + suffixReserve n := by
+theorem blen_withSuffix_le (hk : CharsOk) (t : Texts) (ht : TextsFine t) (i n : Nat) (chunk : Str)
+    (hi : i ≤ Gen.tabFactor * n) :
+    blen (withSuffix t i chunk) ≤ blen chunk + suffixReserve t n := by
   unfold withSuffix
   split
   · omega
@@ -105,12 +119,12 @@ theorem blen_withSuffix_le (hk : CharsOk) (ht : TextsOk) (i n : Nat) (chunk : St
     simp only [blen_append, blen, blen_bold hk, blen_countText, h2]
     split
     · have := ht.1; omega
-    · have := ht.2.1; omega
+    · have := ht.2; omega
 
 /-! ## the list of messages -/
 
 theorem buildMsgs_eq (e : Env) : ∀ (rs : List Str) (acc : List Out),
-    buildMsgs e rs acc = acc ++ rs.mapIdx (fun j c => makeReply e (withSuffix (acc.length + j) c)) := by
+    buildMsgs e rs acc = acc ++ rs.mapIdx (fun j c => makeReply e (withSuffix e.texts (acc.length + j) c)) := by
   intro rs
   induction rs with
   | nil => intro acc; simp [buildMsgs]
@@ -210,14 +224,14 @@ def deliveryOrder (e : Env) (lines : List Str) : List Out := (buildMsgs e lines.
 
 theorem reply_chunked (e : Env) (cfg : Cfg) (chunks : List Str) (s : Str) (allowed : Nat) (s1 : Str)
     (hprep : prepare e cfg s = some (allowed, s1, false))
-    (hres : suffixReserve (blen s1) ≤ allowed)
-    (lines : List Str) (hwrap : ircWrap chunks s1 (allowed - suffixReserve (blen s1)) = .ok lines) :
+    (hres : suffixReserve e.texts (blen s1) ≤ allowed)
+    (lines : List Str) (hwrap : ircWrap chunks s1 (allowed - suffixReserve e.texts (blen s1)) = .ok lines) :
     reply e cfg chunks s = .sent ((deliveryOrder e lines).take (max cfg.instant 1))
       (if (deliveryOrder e lines).length < max cfg.instant 1 then none
        else some ((deliveryOrder e lines).drop (max cfg.instant 1)).reverse) := by
   unfold reply
   rw [hprep]
-  simp only [Bool.false_eq_true, ↓reduceIte, show ¬ (allowed < suffixReserve (blen s1)) by omega, hwrap]
+  simp only [Bool.false_eq_true, ↓reduceIte, show ¬ (allowed < suffixReserve e.texts (blen s1)) by omega, hwrap]
   have hm : buildMsgs e lines.reverse [] = (deliveryOrder e lines).reverse := by simp [deliveryOrder]
   rw [hm, instantLoop_reverse]
   simp only [List.nil_append]
@@ -238,7 +252,7 @@ theorem reply_chunked (e : Env) (cfg : Cfg) (chunks : List Str) (s : Str) (allow
     simp only [show ¬ ((deliveryOrder e lines).length < cfg.instant - 1 + 1) by omega, ↓reduceIte]
 
 theorem mem_deliveryOrder (e : Env) (lines : List Str) (o : Out) (h : o ∈ deliveryOrder e lines) :
-    ∃ j l, j < lines.length ∧ l ∈ lines ∧ o = makeReply e (withSuffix j l) := by
+    ∃ j l, j < lines.length ∧ l ∈ lines ∧ o = makeReply e (withSuffix e.texts j l) := by
   unfold deliveryOrder at h
   rw [List.mem_reverse, buildMsgs_eq, List.nil_append, List.mem_mapIdx] at h
   obtain ⟨i, hi, rfl⟩ := h
@@ -252,7 +266,7 @@ theorem deliveryOrder_length (e : Env) (lines : List Str) : (deliveryOrder e lin
 /-- the `k`-th message delivered (0-based) carries the `k`-th line and the count `n - 1 - k` -/
 theorem deliveryOrder_getElem? (e : Env) (lines : List Str) (k : Nat) :
     (deliveryOrder e lines)[k]? =
-      (lines[k]?).map (fun l => makeReply e (withSuffix (lines.length - 1 - k) l)) := by
+      (lines[k]?).map (fun l => makeReply e (withSuffix e.texts (lines.length - 1 - k) l)) := by
   unfold deliveryOrder
   rw [buildMsgs_eq, List.nil_append]
   by_cases hk : k < lines.length
@@ -264,12 +278,12 @@ theorem deliveryOrder_getElem? (e : Env) (lines : List Str) (k : Nat) :
   · rw [List.getElem?_eq_none (by simpa using Nat.le_of_not_lt hk), List.getElem?_eq_none (Nat.le_of_not_lt hk)]
     rfl
 
-theorem prepare_auto (ht : TextsOk) (hc : ConstsOk) (e : Env) (cfg : Cfg) (s : Str) (allowed : Nat) (s1 : Str) (b : Bool)
-    (hauto : cfg.moresLength = 0) (hprep : prepare e cfg s = some (allowed, s1, b)) :
+theorem prepare_auto (ht : TextsOk) (hc : ConstsOk) (e : Env) (hn : Normal e) (cfg : Cfg) (s : Str) (allowed : Nat)
+    (s1 : Str) (b : Bool) (hauto : cfg.moresLength = 0) (hprep : prepare e cfg s = some (allowed, s1, b)) :
     frameLen e + allowed = 512 ∧ s1 = truncate allowed cfg s ∧ b = (decide (blen s1 ≤ allowed) || !cfg.mores) := by
   unfold prepare allowedLength at hprep
   simp only [hauto, ne_eq, not_true_eq_false, ↓reduceIte] at hprep
-  rw [autoLength_eq ht] at hprep
+  rw [autoLength_eq ht e hn] at hprep
   have hmax : Gen.maxLine = 512 := hc.2.2.2.2.2.2.1
   split at hprep
   · cases hprep
@@ -294,5 +308,16 @@ theorem truncate_length (allowed : Nat) (cfg : Cfg) (s : Str) : (truncate allowe
   split
   · simp; omega
   · omega
+
+theorem prepare_s1 (e : Env) (cfg : Cfg) (s : Str) (allowed : Nat) (s1 : Str) (b : Bool)
+    (hprep : prepare e cfg s = some (allowed, s1, b)) :
+    s1 = truncate allowed cfg s ∧ b = (decide (blen s1 ≤ allowed) || !cfg.mores) := by
+  unfold prepare at hprep
+  split at hprep
+  · cases hprep
+  · simp only [Option.some.injEq, Prod.mk.injEq] at hprep
+    obtain ⟨h1, h2, h3⟩ := hprep
+    subst h1
+    exact ⟨h2.symm, by rw [← h3, ← h2]⟩
 
 end C12
